@@ -751,7 +751,7 @@ impl SwiftParser {
 
         let block_marker = format!("{{{block_index}:");
 
-        if let Some(start) = raw_message.find(&block_marker) {
+        if let Some(start) = Self::find_block_start(raw_message, block_index) {
             let content_start = start + block_marker.len();
 
             match block_index {
@@ -795,6 +795,51 @@ impl SwiftParser {
         } else {
             Ok(None)
         }
+    }
+
+    /// Byte offset of the top-level block `{n:` of a message
+    ///
+    /// The blocks are walked from the start of the message, each one up to its own terminator, so
+    /// a marker that occurs inside the text of another block (a field or tag value such as
+    /// `:79:SEE {5:...}`) is not taken for a block.
+    fn find_block_start(raw_message: &str, block_index: u8) -> Option<usize> {
+        let mut pos = 0;
+        while pos < raw_message.len() {
+            let rest = &raw_message[pos..];
+            let start = match rest.find('{') {
+                Some(offset) => pos + offset,
+                None => return None,
+            };
+            let block = &raw_message[start..];
+
+            // Which block opens here, if any: "{1:" .. "{5:"
+            let index = match block.chars().nth(1) {
+                Some(digit) if block.chars().nth(2) == Some(':') => digit.to_digit(10).unwrap_or(0),
+                _ => 0,
+            };
+            if !(1..=5).contains(&index) {
+                // An ordinary brace between blocks
+                pos = start + 1;
+                continue;
+            }
+            if index == block_index as u32 {
+                return Some(start);
+            }
+
+            // Skip the block: 1 and 2 end at the next '}', 4 at "-}", 3 and 5 at the matching brace
+            let end = match index {
+                1 | 2 => block.find('}'),
+                4 => block.find("-}"),
+                _ => Self::find_matching_brace(block),
+            };
+            match end {
+                Some(end) => {
+                    pos = start + end + 1;
+                }
+                None => return None,
+            }
+        }
+        None
     }
 
     /// Find the matching closing brace for a block that starts with an opening brace
